@@ -47,7 +47,7 @@ type c18Case struct {
 }
 
 var c18Fields = []string{"threshold", "envelope-id", "context-hash", "swap-grants", "drop-grant", "dup-grant", "kp-index", "grant-ct",
-	"swap-ct", "payload-ct", "contents", "swap-keypairs", "drop-keypair", "keypair-pem", "ct-len"}
+	"swap-ct", "payload-ct", "contents", "swap-keypairs", "drop-keypair", "keypair-pem", "ct-len", "ct-short", "ct-short"}
 
 var forgedDecrypts atomic.Int64
 
@@ -218,6 +218,18 @@ func applyStructMut(env *envelope.Envelope, m structMut) {
 	case "keypair-pem":
 		if n := len(env.Keypairs); n > 0 {
 			env.Keypairs[m.A%n].PubKey = m.Mut.Apply(env.Keypairs[m.A%n].PubKey)
+		}
+	case "ct-short":
+		// one grant ciphertext cut down to a few bytes (0..47): shorter than the ciphertext header, inside it, just past it
+		if ng > 0 {
+			g := env.Grants[m.A%ng]
+			if n := len(g.Ciphertexts); n > 0 {
+				ct := g.Ciphertexts[m.B%n]
+				keep := (m.A*8 + m.B + m.Mut.Pos) % 48
+				if keep < len(ct) {
+					g.Ciphertexts[m.B%n] = append([]byte{}, ct[:keep]...)
+				}
+			}
 		}
 	case "ct-len":
 		if ng > 0 {
